@@ -233,10 +233,12 @@ func runC07(r *mon.Run) {
 	}
 	verifhooks.SetVerifPoint(nil)
 	c07GeneratorStress(r)
+	c07FaultedSource(r)
 	r.FloorFam("randomiser", 2000)
 	r.FloorFam("generator-draw", 100000)
 	r.FloorFam("commitment-element", 1000)
 	r.FloorFam("extractor", 500)
+	r.FloorFam("faulted-source", 40)
 	r.Floor("proofs from a prepared (cached) commitment", 20, func() int64 { return r.Get("proofs_from_cache") })
 	r.Floor("concurrent histories", 10, func() int64 { return r.Get("concurrent_histories") })
 }
@@ -529,5 +531,53 @@ func c07GeneratorStress(r *mon.Run) {
 			}
 		}
 		r.Distinct("generator-stress", round, g)
+	}
+}
+
+// c07FaultedSource: proofs made while one read of the system random source fails. The library may refuse to make the proof; a
+// proof it does hand out goes into the history like any other, and the history (two proofs per fault position plus two
+// undisturbed ones) is judged by the same offline checker: a failed draw must not become a fixed randomiser.
+func c07FaultedSource(r *mon.Run) {
+	jr := r.Rand("faulted-source")
+	for _, kn := range []string{"toy512a", "toy256a"} {
+		k := world.Fixture(kn)
+		secret := randBig(jr, 200)
+		cc := c07MkCred(jr, k, secret)
+		for _, nonrev := range []bool{false, true} {
+			log := &c07log{}
+			ctx := bi(1)
+			mk := func(op string, n int64) (d *gabi.ProofD, err error, pv any) {
+				pv, _ = mon.Try(func() {
+					d, err = cc.c.C.CreateDisclosureProof([]int{2}, nil, nonrev, ctx, bi(n))
+				})
+				return
+			}
+			for i := int64(0); i < 2; i++ {
+				if d, err, pv := mk("undisturbed", 900+i); pv == nil && err == nil {
+					c07Record(r, log, 0, "proof", d, cc.c, k.PK, ctx, bi(900+i))
+				}
+			}
+			for rep := int64(0); rep < 2; rep++ {
+				failedDraws(r.Pick(16, 40), func(desc string, hit func() bool) {
+					n := 1000 + rep
+					d, err, pv := mk(desc, n)
+					if !hit() {
+						return
+					}
+					r.Distinct("faulted-source", kn, nonrev, desc, rep)
+					switch {
+					case pv != nil:
+						r.Eval("faulted-source", "panic")
+					case err != nil || d == nil:
+						r.Eval("faulted-source", "error")
+					default:
+						r.Eval("faulted-source", "accept")
+						r.Add("proofs_made_during_a_failed_draw", 1)
+						c07Record(r, log, 0, "proof under "+desc, d, cc.c, k.PK, ctx, bi(n))
+					}
+				})
+			}
+			c07Check(r, fmt.Sprintf("faulted-source %s nonrev=%v", kn, nonrev), log.events)
+		}
 	}
 }
